@@ -24,7 +24,8 @@ EXPLANATION = (
     " ADDED LATER: R7 members are addressed by the offset resolved by name (def-use through typer, resolver, generator); R8 the generator passes every child of every resolved node on to generate() (interprocedural T2); the call-convention rule of C03.R8 and the literal materialisation rules of C09.R6 are shared."
     " ROUNDS 5-6: R9 decision table of resolved::Expression::value_type; R10 every extractvalue of generate_word_deref takes the value accumulated by the previous steps (backward slice). Tables are compared in canonical binding names (hirq.full_env), not source names."
     " ROUND 7: R11 the Element and Member arms after the automatic dereference of an immediate parameter both push the leading zero index (sibling agreement; /repo fix b78d5a6); class predicates are folded per variant whatever their form."
-    " ROUND 8: R12-IMMEDIATE-FLAG-SCOPE: in the step loop of generate_storage_address the address local is only replaced with the immediate-parameter flag known false (path-sensitive scan; `data[0]` with `data: []&i32`); C09.R7 (string literal bytes) and C09.R10 (what may be spliced into the snprintf template) are shared, because what print!/format! write is part of the run-time behaviour.")
+    " ROUND 8: R12-IMMEDIATE-FLAG-SCOPE: in the step loop of generate_storage_address the address local is only replaced with the immediate-parameter flag known false (path-sensitive scan; `data[0]` with `data: []&i32`); C09.R7 (string literal bytes) and C09.R10 (what may be spliced into the snprintf template) are shared, because what print!/format! write is part of the run-time behaviour."
+    " ROUND 9: R13-ARRAY-LITERAL-BASE: the aggregate that run-time elements of an array literal are inserted into originates from LLVMConstArray, never from undef; R3-CAST-ALWAYS-CONVERTED: every value generate_primitive_cast returns comes from generate_conversion, and the PrimitiveCast arm is exactly that call.")
 
 GEN_EXPR = "<alpha::resolved::Expression as alpha::generator::Generatable>::generate"
 GEN_CMP = "<alpha::resolved::Comparison as alpha::generator::Generatable>::generate"
